@@ -58,6 +58,16 @@ type Emit struct {
 	Res    types.Object // variable receiving the returned range, if any
 	ResStr string
 }
+// Inline: the body of a parametric helper (an unexported emitter whose text depends on its string / Expression
+// parameters) evaluated at the call site with the parameters bound to the arguments. A plain return inside it ends the
+// helper, not the caller.
+type Inline struct {
+	Fn   *types.Func
+	Name string
+	Body []Node
+	Pos  token.Pos
+}
+
 type CallW struct {
 	Fn   *types.Func
 	Name string
@@ -118,6 +128,12 @@ type GFunc struct {
 	paths   [][]Node
 	pathErr string
 	skels   []*Skeleton
+	// Parametric: the text the function emits depends on its string / parser.Expression parameters; it is evaluated
+	// at each call site (Inline) and has no skeletons of its own
+	Parametric bool
+	paramKnown bool
+	nInlined   int // call sites at which the helper was evaluated in place
+	nOpaque    int // call sites modelled as a call
 }
 
 type GEM struct {
@@ -245,15 +261,19 @@ type env struct {
 	vals    map[types.Object][]Part // string-valued locals and local builders
 	genvars map[types.Object]bool
 	rows    map[types.Object]map[string]ast.Expr // loop variable of an unrolled constant table → its fields' expressions
+	alias   map[types.Object]string               // Expression parameter of an inlined helper → the caller's expression text
 }
 
 func newEnv() *env {
-	return &env{vals: map[types.Object][]Part{}, genvars: map[types.Object]bool{}, rows: map[types.Object]map[string]ast.Expr{}}
+	return &env{vals: map[types.Object][]Part{}, genvars: map[types.Object]bool{}, rows: map[types.Object]map[string]ast.Expr{}, alias: map[types.Object]string{}}
 }
 func (e *env) clone() *env {
 	n := newEnv()
 	for k, v := range e.rows {
 		n.rows[k] = v
+	}
+	for k, v := range e.alias {
+		n.alias[k] = v
 	}
 	for k, v := range e.vals {
 		n.vals[k] = v
@@ -347,8 +367,9 @@ func mergeEnv(base *env, branches []*env) {
 }
 
 type gemEval struct {
-	g  *GEM
-	gf *GFunc
+	g     *GEM
+	gf    *GFunc
+	depth int
 }
 
 func (ev *gemEval) info() *types.Info { return ev.g.info }
@@ -779,6 +800,11 @@ func (ev *gemEval) call(call *ast.CallExpr, e *env, onEmit func(*Emit)) []Node {
 	switch fnm {
 	case pkgParser + ".(SourceMap).Add":
 		ma := MapAdd{Expr: call.Args[0], ExprStr: types.ExprString(call.Args[0]), RngStr: types.ExprString(call.Args[1]), Pos: call.Pos()}
+		if id, ok := ast.Unparen(call.Args[0]).(*ast.Ident); ok {
+			if a, ok := e.alias[info.ObjectOf(id)]; ok {
+				ma.ExprStr = a
+			}
+		}
 		if id, ok := ast.Unparen(call.Args[1]).(*ast.Ident); ok {
 			ma.Rng = info.ObjectOf(id)
 		}
@@ -795,6 +821,51 @@ func (ev *gemEval) call(call *ast.CallExpr, e *env, onEmit func(*Emit)) []Node {
 		for _, a := range call.Args {
 			out = append(out, ev.traversals(a)...)
 		}
+		if ev.depth < 2 && cg != ev.gf && ev.g.parametric(cg) {
+			e2 := newEnv()
+			i := 0
+			okBind := true
+			for _, prm := range cg.Decl.Type.Params.List {
+				for _, nm := range prm.Names {
+					if i >= len(call.Args) {
+						okBind = false
+						break
+					}
+					obj := info.Defs[nm]
+					t := info.TypeOf(prm.Type)
+					switch {
+					case t != nil && isStringType(t):
+						e2.vals[obj] = ev.fold(call.Args[i], e)
+					case t != nil && types.Identical(t, ev.g.exprType):
+						txt := types.ExprString(call.Args[i])
+						if id, ok := ast.Unparen(call.Args[i]).(*ast.Ident); ok {
+							if a, ok := e.alias[info.ObjectOf(id)]; ok {
+								txt = a
+							}
+						}
+						e2.alias[obj] = txt
+					}
+					i++
+				}
+			}
+			// worth evaluating here only if the caller passes code text it knows (a constant, a generated variable name):
+			// an opaque string (an element or attribute name held in a variable) says no more at the call site than inside
+			informative := false
+			for _, parts := range e2.vals {
+				for _, pt := range parts {
+					if pt.Kind == PConst || pt.Kind == PGenVar {
+						informative = true
+					}
+				}
+			}
+			if okBind && informative && !call.Ellipsis.IsValid() {
+				sub := &gemEval{g: ev.g, gf: cg, depth: ev.depth + 1}
+				body := sub.block(cg.Decl.Body.List, e2)
+				cg.nInlined++
+				return append(out, Inline{Fn: fn, Name: cg.Name, Body: body, Pos: call.Pos()})
+			}
+		}
+		cg.nOpaque++
 		return append(out, CallW{Fn: fn, Name: cg.Name, Args: call.Args, Pos: call.Pos()})
 	}
 	return nil
@@ -892,6 +963,11 @@ func (ev *gemEval) fold(x ast.Expr, e *env) []Part {
 		}
 		if x.Sel.Name == "Value" {
 			if t := info.TypeOf(x.X); t != nil && types.Identical(t, ev.g.exprType) {
+				if id, ok := ast.Unparen(x.X).(*ast.Ident); ok {
+					if a, ok := e.alias[info.ObjectOf(id)]; ok {
+						return []Part{{Kind: PUserExpr, Src: a + ".Value", Owner: a}}
+					}
+				}
 				return []Part{{Kind: PUserExpr, Src: types.ExprString(x), Owner: types.ExprString(x.X)}}
 			}
 		}
@@ -1068,6 +1144,15 @@ func expand(nodes []Node) ([][]Node, bool) {
 					for _, a := range cont {
 						next = append(next, concat(p, concat(a, concat(a, a))))
 					}
+				}
+			case Inline:
+				bps, of := expand(n.Body)
+				overflow = overflow || of
+				for _, bp := range bps {
+					if r, isRet := endsInRet(bp); isRet && !r.Abort {
+						bp = bp[:len(bp)-1] // the helper returns; its caller goes on
+					}
+					next = append(next, concat(p, bp))
 				}
 			default:
 				next = append(next, concat(p, []Node{n}))
@@ -1387,6 +1472,9 @@ func (g *GEM) Skeletons(gf *GFunc) []*Skeleton {
 	}
 	out := []*Skeleton{}
 	defer func() { gf.skels = out }()
+	if g.parametric(gf) && gf.nInlined > 0 && gf.nOpaque == 0 {
+		return out // evaluated at every one of its call sites
+	}
 	for pi, path := range g.Paths(gf) {
 		choices := g.choiceParts(path)
 		nvar := 1
@@ -1682,4 +1770,106 @@ func (ev *gemEval) constTable(x ast.Expr) []tableRow {
 		rows = append(rows, row)
 	}
 	return rows
+}
+
+// parametric: an unexported emitter of the generator package, never used as a value, that has a string or
+// parser.Expression parameter which reaches emitted text (directly, or by being passed on to another emitter).
+func (g *GEM) parametric(gf *GFunc) bool {
+	if gf.paramKnown {
+		return gf.Parametric
+	}
+	gf.paramKnown = true
+	if gf.Decl == nil || gf.Decl.Body == nil || gf.Obj == nil || gf.Obj.Exported() {
+		return false
+	}
+	params := map[types.Object]bool{}
+	for _, prm := range gf.Decl.Type.Params.List {
+		t := g.info.TypeOf(prm.Type)
+		if t == nil || !isStringType(t) {
+			continue
+		}
+		for _, nm := range prm.Names {
+			params[g.info.Defs[nm]] = true
+		}
+	}
+	if len(params) == 0 {
+		return false
+	}
+	// the parameter occurs in the argument of an emitting call (a writer method or another emitter)
+	uses := false
+	ast.Inspect(gf.Decl.Body, func(n ast.Node) bool {
+		call, ok := n.(*ast.CallExpr)
+		if !ok {
+			return true
+		}
+		emitting := g.emitterKind(call) != ""
+		if !emitting {
+			if fn := calleeOf(g.info, call); fn != nil {
+				if cg := g.funcs[fn]; cg != nil && cg.Emits {
+					emitting = true
+				}
+			}
+		}
+		if !emitting {
+			return true
+		}
+		for _, a := range call.Args {
+			ast.Inspect(a, func(m ast.Node) bool {
+				if id, ok := m.(*ast.Ident); ok && params[g.info.ObjectOf(id)] {
+					// an Expression parameter passed whole to a non-parametric emitter (the error handler) does not count: only text
+					if t := g.info.TypeOf(id); t != nil && types.Identical(t, g.exprType) {
+						if a == ast.Expr(id) {
+							if fn := calleeOf(g.info, call); fn != nil {
+								if cg := g.funcs[fn]; cg != nil && cg != gf && !g.parametric(cg) {
+									return true
+								}
+							}
+						}
+					}
+					uses = true
+				}
+				return true
+			})
+		}
+		return true
+	})
+	if !uses {
+		return false
+	}
+	// never used as a value
+	for _, f := range g.pkg.Syntax {
+		bad := false
+		var stack []ast.Node
+		ast.Inspect(f, func(n ast.Node) bool {
+			if n == nil {
+				stack = stack[:len(stack)-1]
+				return true
+			}
+			stack = append(stack, n)
+			if id, ok := n.(*ast.Ident); ok && g.info.Uses[id] == types.Object(gf.Obj) {
+				// must be the Fun of a call (possibly through a selector)
+				isCallee := false
+				for i := len(stack) - 2; i >= 0 && i >= len(stack)-3; i-- {
+					if call, ok := stack[i].(*ast.CallExpr); ok {
+						fun := ast.Unparen(call.Fun)
+						if fun == ast.Expr(id) {
+							isCallee = true
+						}
+						if se, ok := fun.(*ast.SelectorExpr); ok && se.Sel == id {
+							isCallee = true
+						}
+					}
+				}
+				if !isCallee {
+					bad = true
+				}
+			}
+			return true
+		})
+		if bad {
+			return false
+		}
+	}
+	gf.Parametric = true
+	return true
 }
